@@ -12,8 +12,8 @@ ENTRY = {
             "tables. Oracle = Spec.acceptable on the engine's rows; additionally an engine ERROR on the WITH statement is a failure when the engine answers the CTE-free rendering "
             "of the same statement correctly. K also demands Spec.run(inlined statement) = Spec.run(plan) on every case. Non-trivial = engine answered and the reference answer is "
             "non-empty; distinct by sha256 of the canonical case; results above 3000 rows are not generated",
-    "trusted_base": COMMON_TB + ["modelled not verified: binder name map (bind_ctes / bind_table_factor) and planner cache keyed on the CTE name (materialize_shared_ctes) = IQE.Engine.Cte.bindE / cacheE; "
-                                 "which candidate the cache materialises is a parameter (`pick`), the driver tries every candidate",
+    "trusted_base": COMMON_TB + ["modelled not verified: binder name map with save / restore around a WITH scope (bind_query / bind_ctes / bind_table_factor) = IQE.Engine.Cte.bindE with the switches off = bindL; "
+                                 "the pre-91e8987 behaviour (global map, cache keyed on the name, materialised candidate a parameter) is kept as the deviation the witness theorems are about",
                                  "SQL reference semantics IQE.Spec (ours); SQL text <-> resolved plan <-> named statement correspondence is the generator's (harness/src/sqlgen, `names` in the plan JSON), "
                                  "checked per case: lexPlan of the rebuilt named statement must print like the plan",
                                  "text-level renderings used only for attribution (harness/src/fam_sqlc28.rs: CTE-free `inline_sql`, column-renaming `neutral_sql`)"],
@@ -28,14 +28,15 @@ ENTRY = {
                 "an inner WITH only extends the stack and the extension ends with its scope - the sibling input of a join / set operation runs over the outer stack (C28_lexical_scope); "
                 "materialising the definitions once = replacing every reference (body, later definitions, subquery expressions) by a copy of its definition, for every operator shape "
                 "(C28_materialize_eq_inline_partial: definitions and body contain no further WITH, definitions evaluate in every environment). Name resolution (Engine.Cte, named statements): with both "
-                "deviation switches off the model is lexical resolution (C28_model_refines); if no name is defined twice and every reference is bound, the model of the UNCHANGED tree - one global "
+                "deviation switches off the model is lexical resolution (C28_model_refines); if no name is defined twice and every reference is bound, the model of the tree before /repo 91e8987 - one global "
                 "never-restored name map, one materialisation per name, whichever candidate - executes exactly the lexically resolved statement (C28_unique_names, induction over the statement with "
                 "frame / agreement invariants); kernel-checked negation witnesses for re-used names: A.16 gives (1,1) instead of (1,2) through the name-keyed cache, (5,2) instead of (5,1) through the "
                 "never-restored map alone (C28_shadowing_violates). Tie: generated WITH statements through ExecutionContext::sql judged by Spec.acceptable; failing cases attributed only as DESIGN 3.4 prescribes.",
         "design_ref": "DESIGN.md §6 C28, Appendix A.2 / A.16 / A.27",
         "level_note": "Trusted: Lean kernel; propext/Classical.choice/Quot.sound; reference semantics IQE.Spec; the generator's printer / serializer pair; the model of binder map + name-keyed cache. "
                       "PARTIAL: materialise = inline is proved for WITH-free definitions and bodies only (nested WITH: sampled by the per-case K check `inline:agree`, which covers the shadow statements). "
-                      "Unchanged tree: violated - C28-F1 (re-used names: global map + cache keyed on the name; no small repair: the cache key and the binder scope both have to carry the scope), "
+                      "C28-F1 (re-used names: global never-restored name map + cache keyed on the name; A.16) was repaired by /repo 91e8987 (proposed_fixes/C28-cte-scope.patch); its witnesses are replayed "
+                      "from corpus/C28 on every run and a recurrence is reported as a violation (the attribution is no longer consulted). Current tree: violated - "
                       "C28-F2 (equally named columns of two derived relations in one FROM, e.g. a CTE joined with itself: second relation's columns read the first's), C28-F3 (operator defects inherited "
                       "from C21/C22/C23). A.2 (partition-0-only materialisation) was repaired by /repo b96001d; its witness is replayed from corpus/C28 on every run.",
         "technique": "Lean 4 proof over reference semantics + executable model of name resolution; differential correspondence with the Rust engine on generated SQL",
